@@ -12,6 +12,7 @@ Read from the working tree on every run:
       errnoSaved      evloop_run reads errno between ppoll() and tickit_evloop_invoke_timers()
       pendingInit     evloop_init empties pending_signals
       reventsCleared  evloop_io clears .revents of the slot it hands out
+      invokeTypeSaved invoke_watch reads watch->type / watch->t before the callback only
 """
 import re, select
 
@@ -134,6 +135,13 @@ def run(ctx):
     errno_saved = bool(errno_pos) and p_inv >= 0 and all(p_poll < p < p_inv for p in errno_pos)
     pending_init = bool(re.search(r"sigemptyset\s*\(\s*&\s*evdata\s*->\s*pending_signals\s*\)", init_b))
     revents_cleared = bool(re.search(r"pollfds\s*\[\s*idx\s*\]\s*\.\s*revents\s*=\s*0\s*;", io_b))
+    # invokeTypeSaved: invoke_watch copies watch->type before the callback and does not look at the watch afterwards
+    iw = body_of(tk, "invoke_watch") or ""
+    iw_call = iw.find("->fn)")
+    iw_saved = re.search(r"=\s*watch\s*->\s*type\s*;", iw)
+    invoke_type_saved = bool(iw_saved and iw_call >= 0 and iw_saved.start() < iw_call
+                             and not re.search(r"switch\s*\(\s*watch\s*->\s*type", iw)
+                             and not re.search(r"watch\s*->\s*t\s*->", iw[iw_call:]))
 
     def lst(pairs):
         return "[" + ", ".join(f"({a}, {b})" for a, b in pairs) + "]"
@@ -161,8 +169,9 @@ def run(ctx):
     body += f"def errnoSaved : Bool := {b(errno_saved)}\n"
     body += f"def pendingInit : Bool := {b(pending_init)}\n"
     body += f"def reventsCleared : Bool := {b(revents_cleared)}\n"
+    body += f"def invokeTypeSaved : Bool := {b(invoke_type_saved)}\n"
     body += "end Tickit.Gen.EvLoop\n"
     write("EvLoop", body)
     info["evloop"] = {"masks": masks, "timersPop": timers_pop, "errnoSaved": errno_saved, "pendingInit": pending_init,
-                      "reventsCleared": revents_cleared, "insertCmp": insert_cmp, "dueCmp": due_cmp,
+                      "reventsCleared": revents_cleared, "invokeTypeSaved": invoke_type_saved, "insertCmp": insert_cmp, "dueCmp": due_cmp,
                       "unreadable": notes}
